@@ -54,7 +54,7 @@ func c03Plan(seed int64, tier string) []core.Case {
 	per := 10
 	ops := int64(40)
 	if tier == "thorough" {
-		per, ops = 90, 160
+		per, ops = 110, 160
 	}
 	var cs []core.Case
 	i := 0
